@@ -382,7 +382,10 @@ XMLUTF8Transcoder::transcodeFrom(const  XMLByte* const          srcData
             //  the real problem area.
             //
             if ((outPtr - toFill) > 32)
+            {
+                srcPtr -= (trailingBytes + 1);
                 break;
+            }
 
             ThrowXMLwithMemMgr(TranscodingException, XMLExcepts::Trans_BadSrcSeq, getMemoryManager());
         }
